@@ -180,11 +180,11 @@ from pyxel.detectors import CCD, MKID, MKIDGeometry, CMOS, CMOSGeometry, APD, AP
 VIOLATED, DETAIL = False, ''
 def mk(kind):
     if kind == 'MKID':
-        return MKID(geometry=MKIDGeometry(row=2, col=3), environment=Environment(), characteristics=Characteristics())
+        return MKID(geometry=MKIDGeometry(row=2, col=3, pixel_vert_size=1.0, pixel_horz_size=1.0), environment=Environment(), characteristics=Characteristics())
     if kind == 'CMOS':
-        return CMOS(geometry=CMOSGeometry(row=2, col=3), environment=Environment(), characteristics=Characteristics())
+        return CMOS(geometry=CMOSGeometry(row=2, col=3, pixel_vert_size=1.0, pixel_horz_size=1.0), environment=Environment(), characteristics=Characteristics())
     if kind == 'APD':
-        return APD(geometry=APDGeometry(row=2, col=3), environment=Environment(), characteristics=APDCharacteristics(roic_gain=0.8, avalanche_gain=2.0, pixel_reset_voltage=12.0))
+        return APD(geometry=APDGeometry(row=2, col=3, pixel_vert_size=1.0, pixel_horz_size=1.0), environment=Environment(), characteristics=APDCharacteristics(roic_gain=0.8, avalanche_gain=2.0, pixel_reset_voltage=12.0))
     return VP.detector(rows=2, cols=3)
 for kind in ('CCD', 'MKID', 'CMOS', 'APD'):
     names = ['photon', 'pixel', 'signal', 'image'] + (['phase'] if kind == 'MKID' else [])
@@ -197,7 +197,13 @@ for kind in ('CCD', 'MKID', 'CMOS', 'APD'):
                 else:
                     getattr(d, n)._array = None
             d.charge.add_charge_array(np.full((2, 3), 9.0))
+            if r % 2:        # every other detector also holds clusters (the charge array is then the re-binned table)
+                d.charge.add_charge(particle_type='e', particles_per_cluster=np.array([5.0, 7.0]), init_energy=np.zeros(2), init_ver_position=np.array([0.5, 1.5]), init_hor_position=np.array([0.5, 2.5]),
+                                    init_z_position=np.zeros(2), init_ver_velocity=np.zeros(2), init_hor_velocity=np.zeros(2), init_z_velocity=np.zeros(2))
+            before = np.array(d.charge.array); rows = len(d.charge.frame)
             d2 = type(d).from_dict(d.to_dict())
+            if not np.array_equal(np.array(d2.charge.array), before) or len(d2.charge.frame) != rows:
+                VIOLATED, DETAIL = True, f'{kind}: charge read back sums to {float(np.sum(d2.charge.array))} in {len(d2.charge.frame)} clusters; written {float(before.sum())} in {rows} clusters'
             for n in names + ['charge']:
                 a, b = getattr(d, n)._array, getattr(d2, n)._array
                 if (a is None) != (b is None) or (a is not None and not np.array_equal(a, b)):
@@ -224,7 +230,9 @@ def mk_full_detector(ex, u, kind):
     d = st.cell(det)
     d.fields.update({"_environment": env, "_characteristics": cht, "_scene": NONE,
                      "_data": VOpaque("xr", st.fresh_int("data"), {"label": "processed_data", "truthy": True})})
-    st.cell(ex.det_parts["charge"]).fields["_frame"] = D.df_obj(ex, z3.IntVal(0))
+    # the cluster table: any number of rows (empty: the charge array is the stored one; non-empty: Charge.array re-bins the table)
+    st.assume(z3.Int("charge_rows") >= 0)
+    st.cell(ex.det_parts["charge"]).fields["_frame"] = D.df_obj(ex, z3.Int("charge_rows"))
     ph = D.frame_elem(st, D.bucket_array(st, ex.det_parts["photon"]))
     st.assume(ph >= 0)          # representation invariant of Photon (C13): stored photon counts are never negative
     if kind == "MKID":
@@ -244,13 +252,22 @@ def data_unit(kind, qual):
         cfg.contracts["pyxel/util/memory.py::get_size"] = Contract("pyxel/util/memory.py::get_size", lambda ex, args, kwargs, fr: VInt(0), "size bookkeeping")
         cfg.lib_overrides[("getitem", "df")] = lambda ex, obj, idx, fr: obj      # new_frame[previous_frame.columns]: same rows
         base_attr = cfg.lib_overrides[("opaque_attr", "df")]
-        cfg.lib_overrides[("opaque_attr", "df")] = lambda ex, obj, name, fr: VOpaque("xr", None, {"label": "columns"}) if name == "columns" else base_attr(ex, obj, name, fr)
+        CHARGE_COLUMNS = ("charge", "number", "init_energy", "energy", "init_pos_ver", "init_pos_hor", "init_pos_z", "position_ver", "position_hor", "position_z", "velocity_ver", "velocity_hor", "velocity_z")
+        # every DataFrame of these units is a cluster table: its columns are the Charge columns (Charge.__init__ builds EMPTY_FRAME with them, create_charges: C14)
+        cfg.lib_overrides[("opaque_attr", "df")] = lambda ex, obj, name, fr: VTuple([VStr(c) for c in CHARGE_COLUMNS]) if name == "columns" else base_attr(ex, obj, name, fr)
         if kind == "APD":
             aq = f"{DET}apd/apd_characteristics.py::APDCharacteristics"
             aci = u.cls(aq)
             cfg.contracts[aq + ".to_dict"] = Contract(aq + ".to_dict", lambda ex, args, kwargs, fr: ex.st.alloc(HDict([(VStr("roic_gain"), VFloat(0.8))])), "C18.props.roundtrip[APDCharacteristics]")
             cfg.contracts[aq + ".from_dict"] = Contract(aq + ".from_dict", lambda ex, args, kwargs, fr: ex.st.alloc(HObj(aci, {"_roic_gain": VFloat(0.8)})), "C18.props.roundtrip[APDCharacteristics]")
         buckets = ["photon", "pixel", "signal", "image"] + (["phase"] if kind == "MKID" else [])
+        BIN = z3.Function("binned_table", z3.IntSort(), z3.IntSort(), z3.IntSort(), z3.RealSort())      # C14: the array a cluster table bins to
+        cq = "pyxel/data_structure/charge.py::Charge.convert_df_to_array"
+
+        def rebin(ex, args, kwargs, fr):
+            fr_ = ex.st.cell(args[0]).fields["_frame"]
+            return ex.st.alloc(HArr((D.ROWS, D.COLS), VDtype("float64"), lambda ix, t=fr_.info.get("content", fr_.t): VFloat(BIN(t, z_int(ix[0]), z_int(ix[1])))))
+        cfg.contracts[cq] = Contract(cq, rebin, "C14.bin.*: the array is a function of the cluster table")
         base_call = cfg.lib_overrides[("call", "xr")]
         # processed data / scene trees are boundaries: their dict form is modelled as empty (not part of these obligations)
         cfg.lib_overrides[("call", "xr")] = lambda ex, f, args, kwargs, fr: ex.st.alloc(HList([])) if str(f.info.get("label", "")).endswith(".items") else base_call(ex, f, args, kwargs, fr)
@@ -282,10 +299,23 @@ def data_unit(kind, qual):
                 same_val = z3.BoolVal(True) if (oe is None or ne is None) else (oe == ne)
                 goal = z3.And(zb(o_empty) == zb(n_empty), z3.Implies(z3.Not(zb(o_empty)), same_val if ne is not None else z3.BoolVal(False)))
                 u.oblige(p, f"data.roundtrip[{kind}][{b}]", goal, {}, DATA_REPLAY)
-            oc = D.frame_elem(p.st, p.st.cell(orig["charge"]).fields["_array"])
-            nc_ref = bf.get("_charge")
-            nc = D.frame_elem(p.st, p.st.cell(nc_ref).fields["_array"]) if isinstance(nc_ref, VRef) else None
-            u.oblige(p, f"data.roundtrip[{kind}][charge]", (oc == nc) if nc is not None else z3.BoolVal(False), {}, DATA_REPLAY)
+            # charge: what Charge.array reads (the stored array, or the re-binned table when there are clusters) is the same before and
+            # after, and the table read back is the table written (same rows)
+            of_, nc_ref = p.st.cell(orig["charge"]).fields, bf.get("_charge")
+            nf_ = p.st.cell(nc_ref).fields if isinstance(nc_ref, VRef) else {}
+            g = D.GEN
+
+            def reads(fields):
+                fr_, arr = fields.get("_frame"), D.frame_elem(p.st, fields.get("_array"))
+                if not (isinstance(fr_, VOpaque) and fr_.kind == "df") or arr is None:
+                    return None
+                return z3.If(fr_.info["nrows"] == 0, arr, BIN(fr_.info["content"], g[0], g[1]))
+            ro, rn = reads(of_), reads(nf_)
+            u.oblige(p, f"data.roundtrip[{kind}][charge]", (ro == rn) if ro is not None and rn is not None else z3.BoolVal(False), {"clusters": z3.Int("charge_rows")}, DATA_REPLAY)
+            fo, fn_ = of_.get("_frame"), nf_.get("_frame")
+            same_table = isinstance(fo, VOpaque) and isinstance(fn_, VOpaque) and fn_.kind == "df"
+            u.oblige(p, f"data.roundtrip[{kind}][cluster table]", z3.And(fn_.info["nrows"] == fo.info["nrows"], z3.Or(fo.info["nrows"] == 0, fn_.info["content"] == fo.info["content"])) if same_table else z3.BoolVal(False),
+                     {"clusters": z3.Int("charge_rows")}, DATA_REPLAY)
         u.static(f"data.cover[{kind}]", n_ok >= 1, td.qualname, f"{n_ok} complete round trips explored")
     return un
 
